@@ -396,7 +396,7 @@ def main():
         if kf["_line"] in seen_kf:
             continue
         seen_kf.add(kf["_line"])
-        print("KNOWN-FINDING: property=%s %s" % (prop, kf["_line"][len("finding:"):].strip()))
+        print("KNOWN-FINDING: property=%s %s" % (prop, re.sub(r"^property=\S+\s*", "", kf["_line"][len("finding:"):].strip())))
     nviol = 0
     for i, v in enumerate(violations):
         nviol += 1
